@@ -21,8 +21,8 @@ def h_dt(defs, main, N, mode, style='sub'):
     main = T(main)
     dd = dict(defs_list)
     full = inline(main, dd)
-    vs = sorted(variables(full))
     names = [(n, inline(d, dd)) for n, d in defs_list] + [('out', full)]
+    vs = sorted(set().union(*[variables(f) for _, f in names]))          # also the variables of definitions that the main formula does not use
 
     def body(env):
         A = env.A
@@ -143,6 +143,16 @@ def obligations(tier, rng):
     for d, m in [(('eventually_t', X, 0, 1), ('and', P, ('eventually_t', Y, 0, 3))), (('next', X), ('or', P, ('always_t', Y, 1, 2))),
                  (('once_t', X, 0, 1), ('and', P, ('eventually_t', Y, 0, 2)))]:
         out.append(ob('C12', 'dt', 'dt/pastified/horizons/p=%s/out=%s' % (text(d), text(m)), defs=[['p', d]], main=m, N=N + 2, mode='pastified'))
+    # the formula of a LATER name occurs, as plain text, inside an EARLIER definition next to (or below) a bounded-future operator: the
+    # name is bound to its own formula, not to the delayed copy that pastify() made of that text elsewhere
+    GY = ('geq', Y, ('const', 0.0))
+    for sub in [GX, ('once_t', X, 0, 1), ('prev', X), ('since', X, Y)]:
+        for d1 in [('and', sub, ('eventually_t', GY, 0, 2)), ('or', ('always_t', GY, 1, 2), sub), ('eventually_t', ('and', sub, GY), 0, 1), ('implies', ('next', GY), sub)]:
+            for m in [Q, ('or', P, Q), ('and', Q, ('eventually_t', Z, 0, 1))]:
+                if quick and m is not Q and sub is not GX:
+                    continue
+                for mode in ('pastified', 'offline'):
+                    out.append(ob('C12', 'dt', 'dt/%s/text-twice/p=%s/q=%s/out=%s' % (mode, text(d1), text(sub), text(m)), defs=[['p', d1], ['q', sub]], main=m, N=N + 1, mode=mode))
     if not quick:
         # seeded random definitions (depth 2 over x,y) referenced by seeded random formulas (depth 2 over p,z)
         rops = ['not', 'and', 'or', 'implies', 'once', 'historically', 'prev', 'rise', 'since', 'once_t', 'historically_t', 'since_t', 'geq', 'abs', 'sub',
